@@ -302,6 +302,8 @@ class CodeBase:
         Iterate over all files in the code base by walking each directory.
         """
         for directory in self.directories:
-            for path in Path(directory).rglob("*"):
+            # Sort, so that results do not depend on the order in which the
+            # file system happens to enumerate directory entries.
+            for path in sorted(Path(directory).rglob("*")):
                 if self.__contains__(path):
                     yield str(path)
